@@ -19,11 +19,11 @@ func init() { All["C07"] = Spec{"model_checking", runC07} }
 type chunkReader struct {
 	data    []byte
 	off     int
-	prefix  []int   // choices to replay
-	choices []int   // choices taken
-	nalts   []int   // alternatives available at each point
-	maxReq  int     // largest len(p) ever requested
-	cuts    []bool  // segmentation mode: cuts[i] = a read must stop before byte i
+	prefix  []int  // choices to replay
+	choices []int  // choices taken
+	nalts   []int  // alternatives available at each point
+	maxReq  int    // largest len(p) ever requested
+	cuts    []bool // segmentation mode: cuts[i] = a read must stop before byte i
 	closed  bool
 }
 
@@ -265,7 +265,9 @@ func runC07(c *vlib.Check) {
 					cuts[i] = m&(1<<uint(i-1)) != 0
 				}
 				r := &chunkReader{data: stream, cuts: cuts}
-				c07Run(c, msgs, L, r, func() map[string]any { return map[string]any{"kind": "segmentation", "message_sizes": q, "cut_mask": m} })
+				c07Run(c, msgs, L, r, func() map[string]any {
+					return map[string]any{"kind": "segmentation", "message_sizes": q, "cut_mask": m}
+				})
 			}
 		})
 		c.Mu(func() { c.Evaluations += int64(total); c.DistinctN += int64(total) })
